@@ -1140,6 +1140,27 @@ def thread_new_flags(trees):
                     for h in getattr(s, "handlers", []) or []:
                         h.body = rewrite(h.body)
                     nxt = stmts[i + 1] if i + 1 < len(stmts) else None
+                    if isinstance(s, ast.If) and isinstance(nxt, (ast.Expr, ast.Assign, ast.Return, ast.AugAssign)):
+                        # a new local chosen in the branches and used once, first thing, by the next statement:
+                        # that statement goes into the branches with the chosen value in place
+                        lv = leaves(s)
+                        v_ = getattr(nxt, "value", None)
+                        use = _leftmost(v_, lambda x: isinstance(x, ast.Name) and isinstance(x.ctx, ast.Load)
+                                        and counts.get(x.id, [0, 0])[1] == 1 and x.id not in known and x.id not in params) if v_ is not None else None
+                        if use is None and isinstance(v_, ast.Call) and isinstance(v_.func, ast.Name):
+                            use = v_.func if (counts.get(v_.func.id, [0, 0])[1] == 1 and v_.func.id not in known and v_.func.id not in params) else None
+                        if use is not None and lv and counts.get(use.id) == [len(lv), 1] and \
+                                all(isinstance(b[-1], ast.Assign) and len(b[-1].targets) == 1 and isinstance(b[-1].targets[0], ast.Name)
+                                    and b[-1].targets[0].id == use.id for b in lv):
+                            idx = [i for i, x in enumerate(ast.walk(nxt)) if x is use][0]
+                            for b in lv:
+                                c = copy.deepcopy(nxt)
+                                tgt = list(ast.walk(c))[idx]
+                                b[-1] = ast.copy_location(_ReplaceNode(tgt, b[-1].value).visit(c), b[-1])
+                            out.append(s)
+                            n += 1
+                            i += 2
+                            continue
                     if isinstance(s, ast.If) and isinstance(nxt, ast.If) and isinstance(nxt.test, ast.Name) and not nxt.orelse:
                         f = nxt.test.id
                         lv = leaves(s)
@@ -1266,6 +1287,64 @@ def _map_blocks(fn_or_stmt_list, f):
     return rec(fn_or_stmt_list)
 
 
+def _leftmost(e, pred):
+    """the first sub-expression satisfying pred that the evaluation of e reaches while everything evaluated
+    before it is a stable read (names, attribute chains, constants); None if something else comes first"""
+    if pred(e):
+        return e
+    if _stable(e):
+        return None
+    if isinstance(e, ast.UnaryOp):
+        return _leftmost(e.operand, pred)
+    if isinstance(e, ast.BinOp):
+        return _leftmost(e.left, pred) or (_leftmost(e.right, pred) if _stable(e.left) else None)
+    if isinstance(e, ast.Compare):
+        seq = [e.left] + list(e.comparators)
+        for x in seq:
+            r = _leftmost(x, pred)
+            if r is not None:
+                return r
+            if not _stable(x):
+                return None
+        return None
+    if isinstance(e, ast.BoolOp):
+        return _leftmost(e.values[0], pred)
+    if isinstance(e, ast.Subscript):
+        return _leftmost(e.value, pred) or (_leftmost(e.slice, pred) if _stable(e.value) else None)
+    if isinstance(e, ast.Attribute):
+        return _leftmost(e.value, pred)
+    if isinstance(e, (ast.Tuple, ast.List)):
+        for x in e.elts:
+            r = _leftmost(x, pred)
+            if r is not None:
+                return r
+            if not _stable(x):
+                return None
+        return None
+    if isinstance(e, ast.Call):
+        f = e.func
+        if not _stable(f) and not (isinstance(f, ast.Attribute) and _stable(f.value)):
+            return _leftmost(f, pred)
+        for x in list(e.args) + [k.value for k in e.keywords]:
+            r = _leftmost(x, pred)
+            if r is not None:
+                return r
+            if not _stable(x):
+                return None
+        return None
+    return None
+
+
+class _ReplaceNode(ast.NodeTransformer):
+    def __init__(self, old, new):
+        self.old, self.new = old, new
+
+    def visit(self, node):
+        if node is self.old:
+            return self.new
+        return self.generic_visit(node)
+
+
 def desugar_conditional_expressions(trees):
     """`T = A if C else B` is `if C: T = A else: T = B`; `return A if C else B` likewise (statement level only:
     a conditional expression nested inside a larger expression stays)."""
@@ -1275,17 +1354,23 @@ def desugar_conditional_expressions(trees):
         nonlocal n
         out = []
         for s in stmts:
-            v = getattr(s, "value", None) if isinstance(s, (ast.Assign, ast.Return, ast.AugAssign)) else None
-            if isinstance(v, ast.IfExp) and not (isinstance(s, ast.Assign) and any(not isinstance(t, (ast.Name, ast.Attribute)) for t in s.targets)):
-                def mk(val):
-                    c = copy.copy(s)
-                    c.value = val
-                    if isinstance(c, ast.Assign):
-                        c.targets = copy.deepcopy(s.targets)
-                    elif isinstance(c, ast.AugAssign):
-                        c.target = copy.deepcopy(s.target)
+            v = getattr(s, "value", None) if isinstance(s, (ast.Assign, ast.Return, ast.AugAssign, ast.Expr)) else None
+            ie = _leftmost(v, lambda x: isinstance(x, ast.IfExp)) if v is not None else None
+            simple_targets = not isinstance(s, ast.Assign) or all(isinstance(t, (ast.Name, ast.Attribute)) for t in s.targets)
+            if ie is not None and simple_targets:
+                def mk(arm):
+                    c = copy.deepcopy(s) if arm is ie.orelse else s
+                    # the copy for the else-arm must not share nodes with the statement that is rewritten in place
                     return c
-                new = ast.copy_location(ast.If(test=v.test, body=f([mk(v.body)]), orelse=f([mk(v.orelse)])), s)
+                then_s = copy.deepcopy(s)
+                else_s = copy.deepcopy(s)
+                # locate the conditional expression in the copies by position in the walk
+                idx = [i for i, x in enumerate(ast.walk(s)) if x is ie][0]
+                ie_then = list(ast.walk(then_s))[idx]
+                ie_else = list(ast.walk(else_s))[idx]
+                then_s = _ReplaceNode(ie_then, ie_then.body).visit(then_s)
+                else_s = _ReplaceNode(ie_else, ie_else.orelse).visit(else_s)
+                new = ast.copy_location(ast.If(test=ie.test, body=f([then_s]), orelse=f([else_s])), s)
                 out.append(new)
                 n += 1
             else:
@@ -1368,6 +1453,46 @@ def desugar_walrus(trees):
                     s.value = Repl(w).visit(s.value)
                     n += 1
             out.append(s)
+        return out
+    for tree in trees.values():
+        for parts, fn in alpha.walk_functions(tree):
+            fn.body = _map_blocks(fn.body, f)
+        ast.fix_missing_locations(tree)
+    return n
+
+
+# --------------------------------------------------------------------------------------------- boolean returns
+def _strict_bool(e):
+    """an expression whose value is a real bool: comparisons, `not`, and/or of such, True/False"""
+    if isinstance(e, ast.Compare):
+        return True
+    if isinstance(e, ast.UnaryOp) and isinstance(e.op, ast.Not):
+        return True
+    if isinstance(e, ast.BoolOp):
+        return all(_strict_bool(v) for v in e.values)
+    if isinstance(e, ast.Constant) and isinstance(e.value, bool):
+        return True
+    return False
+
+
+def desugar_boolean_returns(trees):
+    """`return <and/or/not combination of comparisons>` is `if <it>: return True else: return False` (only
+    for expressions whose value is a real bool, so the rewrite is exact): the branch structure the CFG-based
+    rules read is the same whether a predicate is written as a chain of early returns or as one expression."""
+    n = 0
+
+    def f(stmts):
+        nonlocal n
+        out = []
+        for s in stmts:
+            if isinstance(s, ast.Return) and isinstance(s.value, (ast.BoolOp,)) and _strict_bool(s.value):
+                new = ast.copy_location(ast.If(test=s.value,
+                                               body=[ast.copy_location(ast.Return(value=ast.Constant(value=True)), s)],
+                                               orelse=[ast.copy_location(ast.Return(value=ast.Constant(value=False)), s)]), s)
+                out.append(new)
+                n += 1
+            else:
+                out.append(s)
         return out
     for tree in trees.values():
         for parts, fn in alpha.walk_functions(tree):
